@@ -229,7 +229,9 @@ def t_to_async_iter(E):
                         carries its return value or exception."""
                         pool, fn_ = a[0], a[1]
                         E.oblige(Qn + '/resource.worker_runs_in_the_scoped_executor',
-                                 z3.BoolVal(isinstance(pool, Obj) and pool.cls == 'Executor' and bool(st.get('pool_open'))))
+                                 z3.BoolVal(isinstance(pool, Obj) and pool.cls == 'Executor' and bool(st.get('pool_open'))),
+                                 props={'C16', 'C03'}, detail='a shared executor can be saturated by other blocked '
+                                 'iterators: the source then never starts, nothing is delivered')
                         st['in_worker'] = True
                         try:
                             E.call(fn_, list(a[2:]), {})
